@@ -14,6 +14,8 @@
 package kvcache
 
 //@ spec func inseq(xs []int, s int) bool = exists k int :: 0 <= k && k < len(xs) && xs[k] == s
+//@ spec func fid(x float32) int
+//@ spec func wfr(mn int, mx int, n int) bool = (mn == 9223372036854775807 && mx == 0) || (0 <= mn && mn <= mx && mx < n)
 
 // ---- trusted library contracts ----
 //@ extern func slices.Contains
@@ -123,6 +125,18 @@ package kvcache
 //@   loop 1 invariant 0 <= i && i < c.curBatchSize
 //@   loop 2 invariant c.curCellRange.min <= j && j <= c.curCellRange.max + 1
 //@   loop 3 invariant c.curBatchSize * length <= i
+// Mask VALUES, row by row (floats are uninterpreted and `==` on floats is the NaN-aware feq, so
+// values are compared through the uninterpreted tag fid: fid(x) == fid(y) is proved only when x
+// and y are the same term). vis(i,b) below is the property's visibility condition.
+//@   requires 1 <= c.windowSize && forall k int :: 0 <= k && k < len(c.curPositions) ==> c.curPositions[k] >= 0
+//@   assert-at call Inf #1 : !inseq(c.cells[j].sequences, c.curSequences[i]) || (!inseq(c.opts.Except, i) && c.cells[j].pos > c.curPositions[i]) || c.cells[j].pos < c.curPositions[i] - c.windowSize
+//@   loop 1 invariant forall k int :: i * length <= k && k < len(mask) ==> fid(mask[k]) == fid(0.0)
+//@   loop 2 invariant enabled <==> !inseq(c.opts.Except, i)
+//@   loop 2 invariant 0 <= i * length && i * length + length <= len(mask) && length == c.curCellRange.max - c.curCellRange.min + 1
+//@   loop 2 invariant forall k int :: i * length + (j - c.curCellRange.min) <= k && k < len(mask) ==> fid(mask[k]) == fid(0.0)
+//@   loop 2 invariant forall k int :: i * length <= k && k < i * length + (j - c.curCellRange.min) ==> fid(mask[k]) == ite(!inseq(c.cells[k-i*length+c.curCellRange.min].sequences, c.curSequences[i]) || (enabled && c.cells[k-i*length+c.curCellRange.min].pos > c.curPositions[i]) || c.cells[k-i*length+c.curCellRange.min].pos < c.curPositions[i] - c.windowSize, fid(float32(math.Inf(-1))), fid(0.0))
+//@   loop 3 invariant forall k int :: c.curBatchSize * length <= k && k < i ==> fid(mask[k]) == fid(float32(math.Inf(-1)))
+//@   assert-at call FromFloatSlice #1 : forall k int :: c.curBatchSize * length <= k && k < len(mask) ==> fid(mask[k]) == fid(float32(math.Inf(-1)))
 // NOT DECIDED (drafted, the solver does not settle the two-variable nonlinear-index quantifiers
 // within the budget, and the zero value of a fresh []float32 is not the term of the literal 0.0):
 //   at the call of FromFloatSlice, forall a < curBatchSize, min <= b <= max:
@@ -228,6 +242,25 @@ package kvcache
 //@   loop 3 invariant oldRange.min <= i && (newRange.min == 9223372036854775807 && newRange.max == 0 || (oldRange.min <= newRange.min && newRange.min <= newRange.max && newRange.max < i))
 //@   loop 3 invariant forall j int :: 0 <= j && j < len(c.cells) ==> c.cells[j].pos == old(c.cells[j].pos)
 //@   loop 3 invariant forall v int :: has(c.cellRanges, v) && c.cellRanges[v].min <= c.cellRanges[v].max ==> 0 <= c.cellRanges[v].min && c.cellRanges[v].max < len(c.cells)
+// W' (strong form of W, what StartForward's range bookkeeping needs): a stored range is either the
+// empty sentinel of newRange() or a non-empty interval inside the cache.
+//@   ensures (forall v int :: old(has(c.cellRanges, v)) ==> old(wfr(c.cellRanges[v].min, c.cellRanges[v].max, len(c.cells)))) ==> forall v int :: has(c.cellRanges, v) ==> wfr(c.cellRanges[v].min, c.cellRanges[v].max, len(c.cells))
+//@   loop 2 invariant (forall v int :: old(has(c.cellRanges, v)) ==> old(wfr(c.cellRanges[v].min, c.cellRanges[v].max, len(c.cells)))) ==> forall v int :: has(c.cellRanges, v) ==> wfr(c.cellRanges[v].min, c.cellRanges[v].max, len(c.cells))
+//@   loop 3 invariant (forall v int :: old(has(c.cellRanges, v)) ==> old(wfr(c.cellRanges[v].min, c.cellRanges[v].max, len(c.cells)))) ==> forall v int :: has(c.cellRanges, v) ==> wfr(c.cellRanges[v].min, c.cellRanges[v].max, len(c.cells))
+// Eviction ("nothing missing ... within the sliding window"): an entry is evicted only if it lies before the
+// window of EVERY token of its sequence in the batch (lowestPos[seq] is a lower bound of their positions).
+//@   requires forall k int :: 0 <= k && k < len(c.curPositions) ==> c.curPositions[k] >= 0
+//@   loop 1 invariant forall k int :: 0 <= k && k <= rangeindex ==> has(lowestPos, c.curSequences[k]) && lowestPos[c.curSequences[k]] <= c.curPositions[k]
+//@   loop 1 invariant forall v int :: has(lowestPos, v) ==> lowestPos[v] >= 0
+//@   assert-at call DeleteFunc #1 : pos >= 0 && inseq(c.cells[i].sequences, seq) && c.cells[i].pos < pos - c.windowSize
+//@   assert-at call newRange #1 : has(lowestPos, seq) && pos == lowestPos[seq]
+//@   assert-at call newRange #1 : forall k int :: 0 <= k && k < len(c.curPositions) && c.curSequences[k] == seq ==> pos <= c.curPositions[k]
+//@   loop 2 invariant forall k int :: 0 <= k && k < len(c.curPositions) ==> has(lowestPos, c.curSequences[k]) && lowestPos[c.curSequences[k]] <= c.curPositions[k]
+//@   loop 2 invariant forall v int :: has(lowestPos, v) ==> lowestPos[v] >= 0
+//@   requires forall j int :: 0 <= j && j < len(c.cells) ==> blk(c.curSequences) != blk(c.cells[j].sequences)   -- ownership (O1): the batch's Sequences slice is the caller's, cell slices are allocated by the cache
+//@   loop 2 invariant forall j int :: 0 <= j && j < len(c.cells) ==> blk(c.curSequences) != blk(c.cells[j].sequences)
+//@   loop 3 invariant forall j int :: 0 <= j && j < len(c.cells) ==> blk(c.curSequences) != blk(c.cells[j].sequences)
+//@   loop 3 invariant forall k int :: 0 <= k && k < len(c.curPositions) ==> has(lowestPos, c.curSequences[k]) && lowestPos[c.curSequences[k]] <= c.curPositions[k]
 
 // ---- moveCells (trusted: View/Copy row semantics of the backend, assumption A-rows): copies
 // ---- the K/V rows [src, src+length) to [dst, dst+length) in order.
@@ -261,3 +294,49 @@ package kvcache
 //@   loop 4 invariant forall j int, g int :: 0 <= j && j < len(c.cells) && g == c.ghost_dat[j] && len(c.cells[j].sequences) != 0 ==> 0 <= g && g < len(c.cells) && c.cells[j].pos == old(c.cells[g].pos) && c.cells[j].sequences == old(c.cells[g].sequences)
 //@   loop 5 invariant forall j int, g int :: 0 <= j && j < len(c.cells) && g == c.ghost_dat[j] && len(c.cells[j].sequences) != 0 ==> 0 <= g && g < len(c.cells) && c.cells[j].pos == old(c.cells[g].pos) && c.cells[j].sequences == old(c.cells[g].sequences)
 //@   loop 3 invariant forall j int :: dst <= j && j <= src ==> (j == src && len(c.cells[j].sequences) == 0) || (c.cells[j].pos == old(c.cells[j].pos) && c.cells[j].sequences == old(c.cells[j].sequences))
+// Frame, and the range reset (loops 4, 5): every range written back is the empty sentinel or an
+// interval inside the cache (W'), and it covers every cell that holds the sequence (R for seq).
+//@   modifies c.cells[all], c.cellRanges, c.ghost_dat[all]
+//@   ensures len(c.cells) == old(len(c.cells))
+//@   ensures (forall v int :: old(has(c.cellRanges, v)) ==> old(wfr(c.cellRanges[v].min, c.cellRanges[v].max, len(c.cells)))) ==> forall v int :: has(c.cellRanges, v) ==> wfr(c.cellRanges[v].min, c.cellRanges[v].max, len(c.cells))
+//@   loop 4 invariant forall v int :: has(c.cellRanges, v) <==> rangehad(v)
+//@   loop 4 invariant forall v int :: visited(v) ==> wfr(c.cellRanges[v].min, c.cellRanges[v].max, len(c.cells))
+//@   loop 5 invariant forall v int :: has(c.cellRanges, v) <==> rangehad(v)
+//@   loop 5 invariant forall v int :: visited(v) && v != seq ==> wfr(c.cellRanges[v].min, c.cellRanges[v].max, len(c.cells))
+//@   loop 5 invariant (seqRange.min == 9223372036854775807 && seqRange.max == 0) || (0 <= seqRange.min && seqRange.min <= seqRange.max && seqRange.max <= rangeindex)
+//@   loop 5 invariant forall k int :: 0 <= k && k <= rangeindex && inseq(c.cells[k].sequences, seq) ==> seqRange.min <= k && k <= seqRange.max
+
+// ---- StartForward: placement of a batch (property clauses "entries previously stored ... each with
+// ---- the data stored for it", "a full cache is reported as an error, not by overwriting live entries",
+// ---- "nothing missing": the cell range handed to buildMask covers the ranges of all batch sequences).
+// ---- Loop 1 stores the batch entries. ghost_pmin/ghost_pmax: range of seq before this iteration.
+//@ func (*Causal).StartForward
+//@   requires c.config != nil && 1 <= c.config.MaskBatchPadding && c.config.MaskBatchPadding <= 65536 && 1 <= c.config.CachePadding && c.config.CachePadding <= 65536
+//@   requires len(batch.Sequences) == len(batch.Positions) && len(batch.Positions) <= 1048576 && (reserve || 1 <= len(batch.Positions))
+//@   requires 1 <= len(c.cells) && len(c.cells) <= 2147483648 && len(c.cells) % c.config.CachePadding == 0 && c.cellRanges != nil
+//@   requires 1 <= c.windowSize && forall k int :: 0 <= k && k < len(batch.Positions) ==> batch.Positions[k] >= 0
+//@   requires forall v int :: has(c.cellRanges, v) ==> wfr(c.cellRanges[v].min, c.cellRanges[v].max, len(c.cells))
+//@   assume-at call defrag #1 : forall j int :: c.ghost_dat[j] == j   -- A-relabel: row identities are named by location when defrag starts (ghost state only)
+//@   assert-at return #1 : err != nil
+//@   assert-at return #1 : forall s int :: 0 <= s && s + len(batch.Positions) <= len(c.cells) ==> exists k int :: s <= k && k < s + len(batch.Positions) && len(c.cells[k].sequences) != 0
+//@   assert-at store pos #1 : i == rangeindex + 1 && 0 <= c.curLoc + i && c.curLoc + i < len(c.cells)
+//@   assert-at store pos #1 : len(c.cells[c.curLoc+i].sequences) == 0
+//@   ghost-at store pos #1 : ghost_pmin := ite(has(c.cellRanges, seq), c.cellRanges[seq].min, 9223372036854775807)
+//@   ghost-at store pos #1 : ghost_pmax := ite(has(c.cellRanges, seq), c.cellRanges[seq].max, 0)
+//@   loop 1 invariant 0 <= c.curLoc && c.curLoc + len(batch.Positions) <= len(c.cells) && len(c.cells) == old(len(c.cells))
+//@   loop 1 invariant forall k int :: c.curLoc + rangeindex < k && k < c.curLoc + len(batch.Positions) ==> len(c.cells[k].sequences) == 0
+//@   loop 1 invariant forall k int :: 0 <= k && k <= rangeindex ==> c.cells[c.curLoc+k].pos == batch.Positions[k] && len(c.cells[c.curLoc+k].sequences) == 1
+//@   loop 1 invariant forall v int :: has(c.cellRanges, v) ==> wfr(c.cellRanges[v].min, c.cellRanges[v].max, len(c.cells))
+//@   loop 1 invariant forall k int :: 0 <= k && k <= rangeindex ==> has(c.cellRanges, batch.Sequences[k]) && c.cellRanges[batch.Sequences[k]].min <= c.curLoc + k && c.curLoc + k <= c.cellRanges[batch.Sequences[k]].max && c.curCellRange.min <= c.cellRanges[batch.Sequences[k]].min && c.cellRanges[batch.Sequences[k]].max <= c.curCellRange.max
+//@   loop 1 invariant (rangeindex == -1 && c.curCellRange.min == 9223372036854775807 && c.curCellRange.max == 0) || (rangeindex >= 0 && 0 <= c.curCellRange.min && c.curCellRange.min <= c.curCellRange.max && c.curCellRange.max < len(c.cells))
+//@   loop 1 invariant rangeindex >= 0 ==> c.cellRanges[batch.Sequences[rangeindex]].min <= ghost_pmin && ghost_pmax <= c.cellRanges[batch.Sequences[rangeindex]].max
+//@   assert-at call buildMask #1 : c.curBatchSize == len(batch.Positions) && c.curSequences == batch.Sequences && c.curPositions == batch.Positions && len(c.opts.Except) == 0
+//@   assert-at call buildMask #1 : !reserve ==> forall k int :: 0 <= k && k < len(batch.Positions) ==> c.cells[c.curLoc+k].pos == batch.Positions[k] && len(c.cells[c.curLoc+k].sequences) == 1
+//@   assert-at call buildMask #1 : !reserve ==> forall k int :: 0 <= k && k < len(batch.Positions) ==> has(c.cellRanges, batch.Sequences[k]) && c.cellRanges[batch.Sequences[k]].min <= c.curLoc + k && c.curLoc + k <= c.cellRanges[batch.Sequences[k]].max && c.curCellRange.min <= c.cellRanges[batch.Sequences[k]].min && c.cellRanges[batch.Sequences[k]].max <= c.curCellRange.max
+//@   assert-at call buildMask #1 : reserve ==> c.curCellRange.min == 0 && c.curCellRange.max == len(c.cells) - 1
+//@   ensures reserve ==> forall j int :: 0 <= j && j < len(c.cells) ==> c.cells[j].pos == old(c.cells[j].pos) && c.cells[j].sequences == old(c.cells[j].sequences)
+//@   ensures reserve ==> forall v int :: (has(c.cellRanges, v) <==> old(has(c.cellRanges, v))) && c.cellRanges[v].min == old(c.cellRanges[v].min) && c.cellRanges[v].max == old(c.cellRanges[v].max)
+//@   ensures !reserve && result == nil ==> 0 <= c.curLoc && c.curLoc + len(batch.Positions) <= len(c.cells) && forall k int :: 0 <= k && k < len(batch.Positions) ==> c.cells[c.curLoc+k].pos == batch.Positions[k] && len(c.cells[c.curLoc+k].sequences) == 1
+//@   ensures forall v int :: has(c.cellRanges, v) ==> wfr(c.cellRanges[v].min, c.cellRanges[v].max, len(c.cells))
+//@   assert-at store sequences #1 : len(stored) == 1 && stored[0] == batch.Sequences[i] && pos == batch.Positions[i]
+//@   requires forall j int :: 0 <= j && j < len(c.cells) ==> blk(batch.Sequences) != blk(c.cells[j].sequences)   -- ownership (O1): the caller's Sequences slice shares no backing array with a cell's slice (precondition of updateSlidingWindow, carried to the caller)
